@@ -109,13 +109,7 @@ func (d *wrappedSlidingWindowDetector) Check(seq uint64) (func() bool, bool) {
 		}, true
 	}
 
-	diff := int64(d.latestSeq) - int64(seq) //nolint:gosec // GG115 TODO check
-	// Wrap the number.
-	if diff > int64(d.maxSeq)/2 { //nolint:gosec // GG115 TODO check
-		diff -= int64(d.maxSeq + 1) //nolint:gosec // GG115 TODO check
-	} else if diff < -int64(d.maxSeq)/2 { //nolint:gosec // GG115 TODO check
-		diff += int64(d.maxSeq + 1) //nolint:gosec // GG115 TODO check
-	}
+	diff := d.distance(seq)
 
 	if diff >= int64(d.windowSize) { //nolint:gosec // GG115 TODO check
 		// Too old.
@@ -129,6 +123,9 @@ func (d *wrappedSlidingWindowDetector) Check(seq uint64) (func() bool, bool) {
 	}
 
 	return func() bool {
+		// Other numbers may have been accepted since the check: use the
+		// distance to the newest number as it is now.
+		diff := d.distance(seq)
 		latest := false
 		if diff < 0 {
 			// Update the head of the window.
@@ -145,4 +142,18 @@ func (d *wrappedSlidingWindowDetector) Check(seq uint64) (func() bool, bool) {
 
 		return latest
 	}, true
+}
+
+// distance returns how far seq is behind the newest accepted number, folded into
+// half the sequence space; it is negative if seq is newer.
+func (d *wrappedSlidingWindowDetector) distance(seq uint64) int64 {
+	diff := int64(d.latestSeq) - int64(seq) //nolint:gosec // GG115 TODO check
+	// Wrap the number.
+	if diff > int64(d.maxSeq)/2 { //nolint:gosec // GG115 TODO check
+		diff -= int64(d.maxSeq + 1) //nolint:gosec // GG115 TODO check
+	} else if diff < -int64(d.maxSeq)/2 { //nolint:gosec // GG115 TODO check
+		diff += int64(d.maxSeq + 1) //nolint:gosec // GG115 TODO check
+	}
+
+	return diff
 }
